@@ -19,7 +19,7 @@ package quic
 //   direction and address as events after `=>` on the action's op line:
 //
 //     recv <addr> <n> none|conn|new <hs>   datagram from <addr> reached the endpoint
-//     send <addr> <n> conn <credit> | send <addr> <n> ep -
+//     send <addr> <n> conn <credit> <k> | send <addr> <n> ep - <k>   (k: bytes before the zero padding)
 //     validated                            the conn's credit became unlimited
 //     cred <credit>|-                      real credit when everything is idle
 //
@@ -309,6 +309,24 @@ func c27FromMaybeSend() bool {
 	}
 }
 
+// c27Unpadded returns the number of bytes taken by packets, i.e. the datagram size minus the zero
+// padding that follows the last long-header packet (a short-header packet extends to the end).
+func c27Unpadded(b []byte) int {
+	k := 0
+	for len(b) > 0 && b[0] != 0 {
+		if !isLongHeader(b[0]) || getPacketType(b) == packetTypeRetry || getPacketType(b) == packetTypeVersionNegotiation {
+			return k + len(b)
+		}
+		n := skipLongHeaderPacket(b)
+		if n <= 0 || n > len(b) {
+			return k + len(b)
+		}
+		k += n
+		b = b[n:]
+	}
+	return k
+}
+
 // onSend is packetConn.Write: on the conn's goroutine for Conn.maybeSend, on the listen
 // goroutine for endpoint-level replies.
 func (x *c27Case) onSend(d datagram) {
@@ -323,10 +341,10 @@ func (x *c27Case) onSend(d datagram) {
 			x.validated = true
 			x.events = append(x.events, "validated")
 		}
-		x.events = append(x.events, fmt.Sprintf("send %d %d conn %s", a, len(d.b), c27ShowCredit(cr)))
+		x.events = append(x.events, fmt.Sprintf("send %d %d conn %s %d", a, len(d.b), c27ShowCredit(cr), c27Unpadded(d.b)))
 		return
 	}
-	x.events = append(x.events, fmt.Sprintf("send %d %d ep -", a, len(d.b)))
+	x.events = append(x.events, fmt.Sprintf("send %d %d ep - %d", a, len(d.b), c27Unpadded(d.b)))
 }
 
 func (x *c27Case) connDone() bool {
@@ -673,7 +691,7 @@ func (x *c27Case) oracle(evs []string) {
 				}
 			}
 		case "send":
-			a, n := vu.Atoi(f[1]), vu.Atoi(f[2])
+			a, n, k := vu.Atoi(f[1]), vu.Atoi(f[2]), vu.Atoi(f[5])
 			x.sent[a] += n
 			if f[3] == "conn" {
 				if a != x.connAddr {
@@ -683,12 +701,12 @@ func (x *c27Case) oracle(evs []string) {
 					pre := x.shadow
 					if n > pre {
 						// the send path did not respect size <= maxSendSize(): the clamp hides the excess
-						if pre >= minPacketSize && n == paddedInitialDatagramSize {
+						if pre >= minPacketSize && n == paddedInitialDatagramSize && 0 < k && k <= pre {
 							x.over[a] += n - pre
 							x.o.Stat("wire:padded-overshoot")
-							x.o.Fail(c27SigPad, fmt.Sprintf("server sent a %d-byte padded datagram with only %d bytes of anti-amplification credit (total sent %d, 3*received %d)", n, pre, x.sent[a], c27Limit*x.recvd[a]))
+							x.o.Fail(c27SigPad, fmt.Sprintf("server padded %d bytes of packets to a %d-byte datagram with only %d bytes of anti-amplification credit (total sent %d, 3*received %d)", k, n, pre, x.sent[a], c27Limit*x.recvd[a]))
 						} else {
-							x.o.Fail("", fmt.Sprintf("server sent %d bytes with only %d bytes of credit", n, pre))
+							x.o.Fail("", fmt.Sprintf("server sent %d bytes (%d before padding) with only %d bytes of credit", n, k, pre))
 						}
 					}
 					x.shadow = max(0, pre-n)
